@@ -32,6 +32,10 @@ def run(ctx):
     from checks import system
     ts = system.record(ctx, "sys")
     system.validate(ctx, ts, ["TrIn", "TrOut"], "pooled memory under real connections")
+    # ... and of strings cut out of pooled memory: the zone of a converted IPv6 address (a name or, when the index names no
+    # interface, its decimal rendering) must stay what it was while later conversions and other pool users go on
+    from checks import c17
+    c17.part_a(ctx)
     ctx.samples.append(open(t1).read().splitlines()[1:6])
     ctx.assumptions += ["TLC 1.8.0", "the harness keeps every backing array alive so addresses identify arrays", "sizes up to 2^20 (class arithmetic up to 2^31 is C20's table)",
                         "log order: Get is logged after it returns, Put before it is called, so logged ownership intervals are subsets of the real ones"]
